@@ -93,7 +93,7 @@ func main() {
 	loadS := time.Since(t0).Seconds()
 	var hs []*Harness
 	for _, h := range w.harnesses {
-		if *prop != "" && h.Prop != *prop {
+		if *prop != "" && !h.serves(*prop) {
 			continue
 		}
 		if *only != "" && !strings.Contains(h.Name, *only) {
